@@ -91,9 +91,12 @@ func TestCheck(t *testing.T) {
 		}
 		return
 	}
-	maxLen := 4
+	// chains that do not start at a share claim are refused at their first blob
+	// whatever follows: they are enumerated to length 3 (quick) / 4 (thorough);
+	// chains that start at a share claim to length 4 (quick) / 5 (thorough)
+	maxLenShare, maxLenOther := 4, 3
 	if vk.Thorough() {
-		maxLen = 5
+		maxLenShare, maxLenOther = 5, 4
 	}
 	// the auth part first: it is short, and the share part is the one that may meet the budget
 	if os.Getenv("C17_ONLY") != "share" {
@@ -101,6 +104,6 @@ func TestCheck(t *testing.T) {
 	}
 	if os.Getenv("C17_ONLY") != "auth" {
 		inFlight.Store("share chains")
-		runShare(res, maxLen)
+		runShare(res, maxLenShare, maxLenOther)
 	}
 }
